@@ -119,12 +119,25 @@ def _configs(tier, salts):
                     two = all(t[3].startswith("two") for t in (a, b, c))
                     for sc in ([False, True] if two else [False]):
                         out.append((_mk("rosen3", 3, [a, b, c], mode, sc, salt, maxfun=70), {"depth": 0}))
+        if salt == 0 or tier == "thorough":
+            e = [0.0, 1e-3, -7e-4, 3e-3, 1.3e-3, -2.1e-3, 5e-4, -1e-3][salt % 8]
+            for name, cfg in cfgs.broad_cfgs(salt=salt, budgets=(30, 70), reg_budgets=(10,)):
+                if cfg.get("lo") is None and cfg.get("hi") is None and not cfg.get("sets"):
+                    n = len(cfg["x0"])
+                    cfg["lo"] = [(-1.0 / 3.0 + e) * 4, 0.1 + e, -2.0][:n] if n > 1 else [-1.0 / 3.0 + e]
+                    cfg["hi"] = [0.9 + e, 1.7 + e, 0.3 + 0.6][:n] if n > 1 else [2.5]
+                    if abs(cfg["x0"][0]) > 10:
+                        cfg["lo"] = [c - 4.0 / 3.0 for c in cfg["x0"]]
+                        cfg["hi"] = [c + 0.9 for c in cfg["x0"]]
+                cfg["tag_mode"] = "default"
+                cfg["tag_place"] = ["broad/" + name]
+                out.append((cfg, {"depth": 0}))
     return out
 
 
 class Tagger(solvex.Monitor):
     def on_end(self, ex):
-        if ex.outcome == "raised":
+        if ex.outcome == "raised" and not mon.raise_is_allowed(ex):
             ex.violate("returns", "solve raised %s: %s" % (type(ex.exc).__name__, ex.exc))
         elif ex.outcome == "returned" and ex.soln.flag == mon.INPUT_ERROR:
             ex.violate("returns", "input error for a valid configuration: %s" % ex.soln.msg)
